@@ -53,7 +53,13 @@ ElectionOutcome(S) ==
   /\ \A p \in Primaries(S) :
        /\ \A n \in Alive(S) : S[p].pid <= S[n].pid           \* the longest-running live node
        /\ \A n \in Alive(S) \ {p} : S[n].role = "Secoundary"
-       /\ \A n \in Alive(S) : S[n].primary_view = {p}          \* every cluster-state names it
+       /\ \A n \in Alive(S) : S[n].primary_view = <<p>>        \* every cluster-state names it (only)
+
+(* failure modes of the election outcome, used to keep the recorded findings apart *)
+AllSettled(S) == \A n \in Alive(S) : S[n].role \in {"Primary", "Secoundary"}
+OnePrimary(S) == Cardinality(Primaries(S)) = 1
+OldestIsPrimary(S) == \A p \in Primaries(S) : \A n \in Alive(S) : S[p].pid <= S[n].pid
+ViewsAgree(S) == \A p \in Primaries(S) : \A n \in Alive(S) : S[n].primary_view = <<p>>
 
 NothingPending(S) == \A n \in Alive(S) : S[n].pending = 0
 
@@ -130,6 +136,30 @@ Dev_SecondaryWriteAppliedLocally ==
   /\ cnt' = Zero /\ UNCHANGED curop
   /\ used' = used \cup {"Dev_SecondaryWriteAppliedLocally"}
 
+(* ---------------- known findings (C07) ---------------- *)
+ElectStep(name, cond) ==
+  /\ name \in Devs
+  /\ E.ev \in {"formed", "quiesce", "end"} /\ E.quiet /\ On("ELECT")
+  /\ ElectionOutcome(E.state) = FALSE
+  /\ cond = TRUE
+  /\ cnt' = Zero /\ UNCHANGED <<curop, taint>>
+  /\ used' = used \cup {name}
+
+(* one primary, the oldest, every other node secondary -- but some node's member map    *)
+(* still names another (or a second) primary                                            *)
+Dev_ElectionStaleView ==
+  ElectStep("Dev_ElectionStaleView",
+            AllSettled(E.state) /\ OnePrimary(E.state) /\ OldestIsPrimary(E.state) /\ ~ViewsAgree(E.state))
+
+(* the cluster goes quiet with every live node secondary *)
+Dev_ElectionNoPrimary ==
+  ElectStep("Dev_ElectionNoPrimary", AllSettled(E.state) /\ Primaries(E.state) = {})
+
+(* exactly one primary, but a younger node than the longest-running live one *)
+Dev_ElectionWrongPrimary ==
+  ElectStep("Dev_ElectionWrongPrimary",
+            AllSettled(E.state) /\ OnePrimary(E.state) /\ ~OldestIsPrimary(E.state))
+
 (* C13/C14: `resolve' never quiesces on a cluster: the primary broadcasts it, every      *)
 (* secondary forwards it back to the primary, which broadcasts it again                 *)
 Dev_ResolvePingPong ==
@@ -141,7 +171,8 @@ Dev_ResolvePingPong ==
 
 TraceNext == l <= Len(Rec) /\ l' = l + 1 /\
              (Reset \/ Formed \/ Client \/ Msg \/ QuiesceOK \/ Dev_RemoveOnSecondaryLocalOnly
-              \/ Dev_SecondaryWriteAppliedLocally \/ Dev_ResolvePingPong)
+              \/ Dev_SecondaryWriteAppliedLocally \/ Dev_ResolvePingPong
+              \/ Dev_ElectionStaleView \/ Dev_ElectionNoPrimary \/ Dev_ElectionWrongPrimary)
 TraceSpec == TraceInit /\ [][TraceNext]_tvars
 
 Progress ==
